@@ -4,6 +4,7 @@ call (rsync of the working tree, so local edits are what gets checked); the
 cargo target directories inside it are a cache only and may be deleted at any
 time (./check clean)."""
 import fcntl
+import hashlib
 import os
 import shutil
 import subprocess
@@ -54,6 +55,30 @@ def sync(name, appends):
     os.makedirs(os.path.join(dst, '.cargo'), exist_ok=True)
     with open(os.path.join(dst, '.cargo', 'config.toml'), 'w') as f:
         f.write('[net]\noffline = true\n')
+    # belt and braces against stale builds: remember the content of the tree a build was last asked for; when it differs (or
+    # nothing is remembered, e.g. a scratch directory inherited from an older run) the crate root is touched so that cargo,
+    # which compares mtimes, recompiles the crate
+    h = hashlib.sha256()
+    for base, dirs, files in os.walk(dst):
+        dirs[:] = sorted(x for x in dirs if x not in ('target', '.git'))
+        for fn in sorted(files):
+            if fn.endswith(('.rs', '.toml', '.lock')) and fn != '.verif_tree_hash':
+                fp = os.path.join(base, fn)
+                h.update(os.path.relpath(fp, dst).encode())
+                with open(fp, 'rb') as f:
+                    h.update(f.read())
+    stamp = os.path.join(dst, '.verif_tree_hash')
+    have = None
+    if os.path.exists(stamp):
+        with open(stamp) as f:
+            have = f.read().strip()
+    if have != h.hexdigest():
+        for rel in ('src/lib.rs', 'Cargo.toml'):
+            fp = os.path.join(dst, rel)
+            if os.path.exists(fp):
+                os.utime(fp, None)
+        with open(stamp, 'w') as f:
+            f.write(h.hexdigest())
     return dst
 
 
